@@ -163,6 +163,9 @@ func c19Gen(r *gen.Rand, cp *c19Corpus, shared bool) c19Call {
 			if n := len(cp.keyLists[call.b]); n >= 3 && r.Intn(3) == 0 {
 				call.m = int32(2 + r.Intn(n-2))
 			}
+			if fn == fBitwordStrs && r.Intn(80) == 0 {
+				call.c, call.m = 1, 0 // the 5000-string batch
+			}
 		case fShardByPrefix:
 			call.a, call.b = int32(r.Intn(len(cp.keyLists))), int32(1+r.Intn(12))
 			if n := len(cp.keyLists[call.a]); n >= 3 && r.Intn(3) == 0 {
@@ -364,7 +367,11 @@ func c19Exec(cp *c19Corpus, sigs []*sigbits.SigBits, call c19Call, g *c19Guards)
 		return gen.Hash64(h, uint64(bw.FirstDiff(sa, sb, int(call.c>>8), int(call.c&255)-1)))
 	case fBitwordStrs:
 		bw := bitword.BitWord[c19BWWidths[call.a]]
-		ws := bw.FromStrs(L(PL(cp.keyLists[call.b])))
+		lst := cp.keyLists[call.b]
+		if call.c == 1 {
+			lst = cp.bigStrs
+		}
+		ws := bw.FromStrs(L(PL(lst)))
 		for _, x := range ws {
 			h = gen.Hash64(h, gen.HashBytes(x))
 		}
